@@ -138,8 +138,10 @@ def run_local(op, script, payload, root, persistent=False):
     return out
 
 
-def _plan(script, is_target, payload, persistent, kinds_status=(503, 500, 429)):
+def _plan(script, is_target, payload, persistent, kinds_status=(503, 500, 429), listing=False, phase=0):
     state = {'n': 0}
+    LAST = 3        # the model's last position (NChunks): the fault comes after the WHOLE body was consumed, remainder chunk included
+    whole = lambda pos: 10 ** 9 if pos >= LAST else pos     # noqa: E731
     sc = {a: (p, k) for a, p, k in script}
 
     def plan(request):
@@ -153,11 +155,14 @@ def _plan(script, is_target, payload, persistent, kinds_status=(503, 500, 429)):
             return None
         pos, kind = f
         if kind == 'io':
+            if listing and pos > 0:
+                return ('cutreal', min(pos, 3))      # the real listing page, broken after pos/4 of its body
             if request.method in ('GET',):
                 return ('cut', min(pos * CHUNK, len(payload)), payload)
-            return ('drop', pos)
+            return ('drop', whole(pos))
         if kind == 'status':
-            return ('status', kinds_status[state['n'] % len(kinds_status)] if not persistent else 503, pos if request.method not in ('GET', 'HEAD') else 0)
+            # which status a fault shows up as rotates with the attempt AND the case, so that every code also occurs as the first fault
+            return ('status', kinds_status[(state['n'] + phase) % len(kinds_status)] if not persistent else 503, whole(pos) if request.method not in ('GET', 'HEAD') else 0)
         if kind == 'auth':
             return ('auth',)
         return None
@@ -165,7 +170,7 @@ def _plan(script, is_target, payload, persistent, kinds_status=(503, 500, 429)):
     return plan
 
 
-def run_remote(adapter, op, script, payload, persistent=None):
+def run_remote(adapter, op, script, payload, persistent=None, bulk=0):
     name = 'data/aa/bb/cc-dd'
     old = b'old complete object'
     if adapter == 's3':
@@ -184,7 +189,17 @@ def run_remote(adapter, op, script, payload, persistent=None):
                    'download': lambda r: r.url.host == 'dl.fake-b2.test' and r.method == 'GET', 'download_stream': lambda r: r.url.host == 'dl.fake-b2.test' and r.method == 'GET',
                    'exists': lambda r: r.method == 'HEAD', 'delete': lambda r: r.url.path.endswith('b2_hide_file'), 'list': lambda r: r.url.path.endswith('b2_list_file_names')}[op]
         visible = fake.visible
-    fake.plan = _plan(script, is_data, payload, persistent)
+    expected_listing = [name]
+    if bulk:
+        # a listing whose pages are hundreds of kilobytes: many objects with long names
+        more = {'data/%02x/%s-%06d' % (i % 256, 'n' * 260, i): b'x' for i in range(bulk)}
+        if adapter == 's3':
+            fake.objects.update(more)
+        else:
+            for k, v in more.items():
+                fake.versions[k] = [('upload', v)]
+        expected_listing = sorted([name] + list(more))
+    fake.plan = _plan(script, is_data, payload, persistent, listing=(op == 'list'), phase=zlib.crc32(repr((op, script)).encode()))
     fake.drop_phase = zlib.crc32(repr((adapter, op, script, persistent)).encode())      # which transport error a drop shows up as: rotates with the case
     fake.op_limit = 200
     out = {'ok': True, 'exact': True, 'calls': 0, 'runaway': False, 'nopartial': True, 'etype': '~'}
@@ -219,7 +234,7 @@ def run_remote(adapter, op, script, payload, persistent=None):
             elif op == 'exists':
                 out['exact'] = res is True
             elif op == 'list':
-                out['exact'] = res == [name]
+                out['exact'] = sorted(res) == expected_listing        # every name exactly once
             elif op == 'delete':
                 out['exact'] = name not in visible()
             else:
